@@ -405,9 +405,10 @@ def usz(x):
 class C15(Prop):
     pid = "C15"
     ops = {"HEXALL", "HEXIDX", "HEXBYTEAT", "HEXTAIL", "HEXRANGE", "HEXEQ", "HEXFROMI64", "HEXFROMF64",
-           "HEXFROMSTR", "HEXFROMVEC", "HEXFROMSLICE",
-           # the rest of the Hex API (HexMore.v): outside the property text, compared with the model and a byte-level oracle
-           "HEXSET", "HEXSTRBYTES", "HEXTOBOOL", "HEXTOUTF8", "HEXFROMINT", "HEXFROMF32", "HEXFROMBOOL"}
+           "HEXFROMSTR", "HEXFROMVEC", "HEXFROMSLICE"}
+    # the rest of the Hex API (HexMore.v): outside the property text.  Compared with the model and with a byte-level
+    # expectation to keep the whole type under the tie, but a disagreement there is counted in the evidence, not raised
+    informational_ops = ("HEXSET", "HEXSTRBYTES", "HEXTOBOOL", "HEXTOUTF8", "HEXFROMINT", "HEXFROMF32", "HEXFROMBOOL")
     stay_in_limits = False
     exhaustive = True
     rule = ("byte strings of every length 0..10 (fixed and random content) in the heap representation and, up to 8 "
@@ -550,6 +551,11 @@ class C15(Prop):
     def oracle(self, h, il):
         for i, (op, line) in enumerate(zip(h.ops, il)):
             t = op.split()
+            if t[0] in self.informational_ops:
+                want = self.expected(t)
+                if want is not None and want != line.split(" -> ", 1)[1]:
+                    self._more_mismatch = getattr(self, "_more_mismatch", 0) + 1
+                continue
             if t[0] not in self.ops:
                 continue
             want = self.expected(t)
@@ -558,6 +564,10 @@ class C15(Prop):
                 return {"reason": "%s depends on more than the byte string / differs from the byte slice" % t[0],
                         "index": i, "expected": want, "observed": got}
         return None
+
+    def extra_coverage(self):
+        return {"rest_of_hex_api": {"ops": list(self.informational_ops),
+                                    "byte_level_expectation_mismatches": getattr(self, "_more_mismatch", 0)}}
 
     def nontrivial(self, h, il):
         return {op for op in h.ops if op.split()[0] in self.ops and op.split()[0] in ("HEXALL", "HEXIDX", "HEXBYTEAT", "HEXTAIL", "HEXRANGE", "HEXEQ")
